@@ -21,7 +21,7 @@ type c07 struct{ base }
 
 func init() {
 	runner.Register(&c07{base{id: "C07", level: "exploration",
-		rule:        "exhaustive single actions: every action kind x target shape {absent top-level, top-level scalar, map member, nested map member, list element inside / at / past the end, element of a nested list, set} x right-hand-side shape {value, path, +, -, if_not_exists(present / absent), list_append both orders}; every pairing of a copy (plain path, list_append(src, :e) with empty and non-empty :e, list_append(:e, src), if_not_exists(src, :d)) with an in-place change of the source or of a document INSIDE an element of the source, in every clause order; seeded: 1-4 clauses per expression incl. all four keywords together in random clause order, on items with 3-8 bystander attributes of all ten types, on present and absent items. Each case is executed (1) directly through interpreter.Language.Update on a copy and (2) for a sample through UpdateItem -> GetItem on both adapters; the result is compared with the oracle on EVERY attribute (targeted = specified value, removed = gone, all others equal in type and value). non-trivial = item has >=3 bystander attributes and the update changes the item; distinct by (update skeleton, target/operand kind vector).",
+		rule:        "exhaustive single actions: every action kind x target shape {absent top-level, top-level scalar, map member, nested map member, list element inside / at / past the end, element of a nested list, set} x right-hand-side shape {value, path, +, -, if_not_exists(present / absent), list_append both orders}; every pairing of a copy (plain path, list_append(src, :e) with empty and non-empty :e, list_append(:e, src), if_not_exists(src, :d)) with an in-place change of the source or of a document INSIDE an element of the source, in every clause order; seeded: 1-4 clauses per expression incl. all four keywords together in random clause order, on items with 3-8 bystander attributes of all ten types, on present and absent items. Each case is executed (1) directly through interpreter.Language.Update on a copy and (2) for a sample through UpdateItem -> GetItem on both adapters; the result is compared with the oracle on EVERY attribute (targeted = specified value, removed = gone, all others equal in type and value). non-trivial = item has >=3 bystander attributes and the update changes the item; distinct by (update skeleton, target/operand kind vector). Targets three and four steps deep in a four-level document (same member names in both orders, maps inside a list); ill-fitting paths include paths into a missing attribute or a NULL, refused for SET and REMOVE alike; half of the client replays run on tables with indexes over string attributes of the item.",
 		assumptions: append([]string{"paths of one expression never overlap (generator guarantee; DynamoDB rejects overlaps)", "numbers are small decimals that float64 represents exactly (exact-decimal behaviour is C12's subject)"}, commonAssumptions...)}})
 }
 
